@@ -7,6 +7,22 @@ thread_local! {
     static SEND_ALL_TRACES: RefCell<Vec<Vec<String>>> = RefCell::new(Vec::new());
 }
 
+thread_local! {
+    static SEND_ALL_ORDERS: RefCell<Vec<String>> = RefCell::new(Vec::new());
+}
+
+/// Called before a `HashSet` is iterated where the iteration order decides the result (make_candidate: the free UTxOs
+/// holding an asset, kind "u"; add_assets_to_proposal_output: the assets to place, kind "a"): the order about to be taken.
+pub(crate) fn record_send_all_order<I: Iterator<Item = usize>>(kind: &str, items: I) {
+    let list: Vec<String> = items.map(|x| x.to_string()).collect();
+    SEND_ALL_ORDERS.with(|t| t.borrow_mut().push(format!("{}:{}", kind, list.join(","))));
+}
+
+/// The iteration orders recorded on this thread since the last call, in call order (speculative attempts included).
+pub fn take_send_all_orders() -> Vec<String> {
+    SEND_ALL_ORDERS.with(|t| t.borrow_mut().drain(..).collect())
+}
+
 /// Called when a proposal is finished (TxBatchBuilder::build).
 pub(crate) fn record_send_all_trace(trace: &Vec<String>) {
     SEND_ALL_TRACES.with(|t| t.borrow_mut().push(trace.clone()));
